@@ -5,6 +5,28 @@ VERIF = os.path.dirname(os.path.dirname(os.path.abspath(__file__)))
 ALL = [f"C{i:02d}" for i in range(1, 21)]
 
 CLAIMS = {
+ "C04": dict(
+    category="other",
+    text="Partial proof + fault enumeration. PROVED in Lean over a model of the parser primitives (cursor, fuel = Gen.parserFuel and the expect "
+         "recovery set = Gen.recoveryTokens, both regenerated from parser.rs on every run; peek/nth/eof/at/eat/advance/expect/advance_with_error): "
+         "peek_stuck_eof (after `fuel` looks without an advance every further look answers eof, reported once: stuck_reported_once), loop_terminates "
+         "(a `while !at(k) && !eof` loop whose body advances or spends fuel leaves within (fuel+1)(n+1) iterations), dispatch_progress (an if/else-if chain "
+         "of guards with an advancing default makes progress whatever its branches do), file_consumes_all (the top-level loop of file() terminates with "
+         "every token consumed, for any item parsers built from the primitives), expect_keeps_recovery_token, error_range_is_token_range. The model is "
+         "diffed against the real Parser object on random op sequences. Termination/validation of package graphs and artefacts is C16/C15 "
+         "(Props/C15.lean validate_iff, corrupt_core_rejected, other_version_*_rejected). SEARCHED, not proved: every entry point (parse, compile incl. the "
+         "CLI's error formatting and all stage pretty-printers, check_package, build_package, read_core, link_cores) on random texts, byte/token/"
+         "same-class-token mutations of the corpus and of generated programs, type-directed generated programs (well-typed and with one ill-typed hole), "
+         "22 nesting forms to depth 200, package directory layouts (missing/misnamed/cyclic/self-importing/invalid-UTF-8/multi-file), altered artefacts "
+         "(random bytes/JSON, truncation, every kind of single-value change) — each case in a child process (8 MiB main-thread stack) under catch_unwind "
+         "with a CPU-time watchdog; oracle: Ok or Err with at least one error diagnostic, every diagnostic range inside the text on char boundaries, no panic, "
+         "no abort, no hang. One signature per panic site (file + function) x entry point x stream class.",
+    design_ref="§5 C04, §C04 — as built",
+    note="Trusted: Lean kernel; extract_parser_consts/extract_recovery (regex over parser.rs, expr.rs, file.rs); harness/src/c04.rs, c04gen.rs, crash.rs, "
+         "jsonspan.rs. Crash-freedom is a search result over the explored inputs only; item parsers are covered by the StepOK closure argument, not modelled one "
+         "by one; ranges of diagnostics of multi-file projects are not checked (no file attribution). Known findings: polymorphic recursion never returns; "
+         "link_cores panics on a .core whose core_ir was edited (three sites).",
+    technique="Lean 4 proof of the parser's termination logic + op-sequence correspondence + crash/hang search in child processes (fault enumeration)"),
  "C05": dict(
     category="proof",
     text="Lean theorems over a model of resolve_expr/resolve_pat: the state-threading resolver refines the environment-passing "
